@@ -663,7 +663,7 @@ func parentMain(c *Check, tier string, only string) int {
 		"distinct_nontrivial": len(outcomes),
 		"trivial_outcomes":    total.Trivial,
 		"rule":                c.Rule,
-		"samples":             total.Samples,
+		"samples":             samplesOrEmpty(total.Samples),
 		"exhaustive":          complete,
 		"shards":              len(shards),
 		"shards_done":         done,
@@ -852,3 +852,10 @@ func readJournal(p string) string {
 
 // Trunc shortens a string for messages.
 func Trunc(s string, n int) string { return trunc(s, n) }
+
+func samplesOrEmpty(s []json.RawMessage) []json.RawMessage {
+	if s == nil {
+		return []json.RawMessage{}
+	}
+	return s
+}
